@@ -249,6 +249,12 @@ class Lemma:
         # child preconditions: Inv at the compile-time stack the generator has at this moment
         engine.safety.append((list(cond), f'child {node!r} precondition: fp is the activation frame pointer', fp == self.entry.regs['fp']))
         engine.safety.append((list(cond), f'child {node!r} precondition: ap <= fp - offset (frame above array stack)', ap + o_now <= fp))
+        if not getattr(self, 'children_run_with_changed_defeat', False):
+            # I-defeat: a sub-expression / sub-block runs under the defeat handler (and saved try frame) that was current when
+            # the construct was entered -- a defeat inside it must still reach the enclosing try's handler
+            engine.safety.append((list(cond), f'child {node!r} precondition: the defeat word is the one the construct was entered with',
+                                  st.regs['defeat'] == self.entry.regs['defeat']))
+            engine.safety.append((list(cond), f'child {node!r} precondition: try_fp unchanged', st.regs['try_fp'] == self.entry.regs['try_fp']))
         pre = st.copy()
         st2 = st.copy()
         lo = fp - o_now
@@ -300,7 +306,9 @@ class Lemma:
                     s3.regs['ap'] = info.loop[2] if info.loop[2] is not None else self.entry.regs['ap']
                     s3.regs['defeat'] = info.loop[3] if info.loop[3] is not None else self.entry.regs['defeat']
                     leaves.append(([], 'jump', info.loop[idx], s3))
-            may_defeat = ExitMode.DEFEAT in modes
+            # exit_modes() records DEFEAT only for statement-level defeat calls: inside a try body / defeat function a block
+            # may reach defeat from within an expression without DEFEAT being in its mode set
+            may_defeat = ExitMode.DEFEAT in modes or node.name in getattr(self, 'blocks_may_defeat_silently', ())
         if may_defeat:
             if info.effective_defeat == stdlib.halt:
                 leaves.append(([], 'bot', None, abnormal('defeat')))
@@ -372,6 +380,13 @@ class Lemma:
         """items: (cond list, text, formula)"""
         t0 = t0 or time.time()
         c = self.ctx
+        if clause in ('SAFE', 'CHILDPRE'):
+            dft = [i for i in items if 'precondition: the defeat word' in i[1] or 'precondition: try_fp' in i[1]]
+            if dft:
+                items = [i for i in items if i not in dft]
+                self.prove_all('CHILD-DEFEAT', dft, ('C02', 'C03'))
+        if not items:
+            return True
         bad = None; n = 0
         if len(items) > 1:
             # one query for the conjunction; on failure fall through to the itemised loop to name the culprit
